@@ -139,6 +139,8 @@ def _case(draw, tier):
         other = leaf(draw, ctx, [draw(st.integers(0, nF - 1))])
         parts = [inner, other] if draw(st.booleans()) else [other, inner]
         case["prelude_sharing_comparisons"] = [draw(st.sampled_from(["or", "or", "and"])), "nary", parts]
+        if chance(draw, 1, 4):
+            case["prelude_sharing_comparisons"] = inner       # the earlier query's whole condition: an(entity(x, c))
     return case
 
 
